@@ -189,7 +189,9 @@ def main(tier: str, seed: int) -> int:
             canonical[(res["name"], tuple(res["traits"]))] = res["text"]
             for k in range(1, bound + 1):
                 for chosen in combinations(res["sites"], k):
-                    for pols in product(POLICIES, repeat=k):
+                    # quick: all three permutation policies for the order corpus, `reversed` for the other programs
+                    pol_menu = POLICIES if (not quick or res["name"] in order_names) else POLICIES[:1]
+                    for pols in product(pol_menu, repeat=k):
                         devs.append((res["name"], res["prog"], res["traits"], dict(zip(chosen, pols))))
         for name, traits, dev, text in pool.imap_unordered(_sched_dev, devs, chunksize=2):
             sched_runs += 1
@@ -307,9 +309,14 @@ def main(tier: str, seed: int) -> int:
 
     keep = slice_keep(tier)
     imm_fams = ["C12", "C13", "C15"] if quick else ["C08", "C09", "C10", "C11", "C12", "C13", "C14", "C15", "C16"]
+    n_fixed = len(imm_jobs)
     imm_jobs += list(compose.remap(compose.family_jobs(imm_fams, tier),
                                    "C17", mk, checks=("immut",),
                                    keep=lambda j: keep(j) or j["family"].split("/")[0].split("~")[0] in ("C12", "C13")))
+    fam_part = imm_jobs[n_fixed:]
+    if quick and len(fam_part) > 1500:  # evenly spaced part of the family programs
+        fam_part = [fam_part[(k * len(fam_part)) // 1500] for k in range(1500)]
+    imm_jobs = imm_jobs[:n_fixed] + fam_part
     driver.run_pool(imm_jobs, seed, agg.add)
     for jb, cres, v in agg.violations:
         if v.get("kind") == "mutated_argument":
